@@ -132,7 +132,8 @@ func C12(e *simkern.Env) {
 		sim := simkern.NewSim(tp, e.Trace)
 		defer sim.Close()
 		hx.Rec.Reset()
-		key := []byte("0123456789abcdef0123456789abcdef")
+		// the deployment's key: any length >= 16 is legal
+		key := []byte("0123456789abcdef0123456789abcdefFEDCBA9876543210fedcba9876543210")[:tp.Pick(32, 32, 16, 20, 31, 33, 40, 64)]
 		hooks := map[*vgirpc.HttpServer]*countingHook{}
 		rehydrates := 0
 		setup := func(i int, srv *vgirpc.Server, h *vgirpc.HttpServer) {
@@ -146,6 +147,24 @@ func C12(e *simkern.Env) {
 		cl := httpw.NewCluster(httpw.Config{Key: key, CacheSizes: []int{cacheMain, 0}, BatchLimit: 1, NoTwin: true, Setup: setup, WithAuth: true, ServerIDs: []string{"w", "w"}})
 		// a second real deployment with another key (lengths 16..64)
 		fkey := bytes.Repeat([]byte{byte(1 + tp.Draw(200))}, 16+tp.Draw(49))
+		switch tp.Draw(6) {
+		// other keys that are near misses of the deployment's key
+		case 0: // same leading bytes, another tail
+			fkey = append(append([]byte(nil), key...), byte('x'), byte(tp.Draw(256)))
+		case 1: // padded with NULs
+			fkey = append(append([]byte(nil), key...), make([]byte, 1+tp.Draw(16))...)
+		case 2: // one byte shorter (still >= 16) or, for a 16-byte key, one longer
+			if len(key) > 16 {
+				fkey = append([]byte(nil), key[:len(key)-1]...)
+			} else {
+				fkey = append(append([]byte(nil), key...), 'z')
+			}
+		case 3: // one bit of the last byte flipped
+			fkey = append([]byte(nil), key...)
+			fkey[len(fkey)-1] ^= 1
+		}
+		e.Knob("key_bytes", len(key))
+		e.Knob("foreign_key_bytes", len(fkey))
 		foreign := httpw.NewCluster(httpw.Config{Key: fkey, CacheSizes: []int{-1}, BatchLimit: 1, NoTwin: true, WithAuth: true})
 		idents := []httpw.Ident{{}, {Auth: true, Domain: "bearer", Principal: "alice"}}
 		var sigBodies [][]byte
@@ -318,7 +337,7 @@ func init() {
 	Registry["C12"] = &Info{
 		Run:   C12,
 		Level: "fault_enumeration",
-		Rule:  "the network/adversary alters tokens in flight: each run starts 3-7 real streams (producer/exchange, anonymous or authenticated) and presents altered cursors (to a cached and to a cache-less instance) and altered call tokens (to the cache-less instance, where the server must consult them): single-bit flips, multi-byte overwrites, extension, truncation above and below the minimum length, version byte, base64 alphabet/padding/newline/garbage variants, tokens minted by a second real deployment under a foreign key of 16..64 bytes, and the two token kinds swapped; as tick, exchange input and cancel. One quick run in eight is a complete sweep of every byte position of one cursor and one call token. distinct = schedule fingerprint (includes the mutation choices)",
+		Rule:  "the network/adversary alters tokens in flight: each run starts 3-7 real streams (producer/exchange, anonymous or authenticated) and presents altered cursors (to a cached and to a cache-less instance) and altered call tokens (to the cache-less instance, where the server must consult them): single-bit flips, multi-byte overwrites, extension, truncation above and below the minimum length, version byte, base64 alphabet/padding/newline/garbage variants, tokens minted by a second real deployment under a foreign key of 16..64 bytes, and the two token kinds swapped; as tick, exchange input and cancel. One quick run in eight is a complete sweep of every byte position of one cursor and one call token. distinct = schedule fingerprint (includes the mutation choices); the deployment key has 16-64 bytes and the foreign key is a random one or a near miss of it (same leading bytes with another tail, NUL-padded, one byte shorter/longer, last bit flipped)",
 		Real:  []string{"vgirpc.HttpServer.handleStreamExchange, openToken / sealToken (XChaCha20-Poly1305), resolveCall, call-state cache", "a second real HttpServer with another key as the foreign minter"},
 		Stub:  []string{"HTTP transport", "adversary", "scripted states with call counters", "counting rehydrate callback and dispatch hook"},
 		Quick: 480, Thorough: 60000,
